@@ -18,6 +18,8 @@ pub mod secure_pool;
 pub mod simd_ops;
 pub mod threadlocal_pool;
 pub mod tiered;
+#[cfg(zipora_verif)]
+pub mod verif_sched;
 
 // Re-export main types
 pub use bump::{BumpAllocator, BumpArena};
